@@ -322,8 +322,10 @@ class PrevOracle:
                     for n in new:
                         subj = real.r.git(["log", "-1", "--format=%s", st["patches"][n]["oid"]]).stdout.strip()
                         slug = re.sub(r"[^a-z0-9]+", "-", subj.lower()).strip("-")
-                        stem = lambda x: re.sub(r"-?\d+$", "", x)      # uniquify bumps a trailing number or appends -N
-                        if subj.isascii() and slug and len(slug) <= 30 and stem(n) != stem(slug):
+                        # compared on letters and digits only (which punctuation survives in a name is
+                        # C14's business); uniquify bumps a trailing number or appends -N
+                        alnum = lambda x: re.sub(r"[^a-z0-9]", "", re.sub(r"-?\d+$", "", x.lower()))
+                        if subj.isascii() and slug and len(slug) <= 30 and alnum(n) != alnum(slug):
                             return ("stg uncommit named the commit with subject %r %r (names are derived from each "
                                     "commit's own message)" % (subj, n))
         if c["c"] == "commit" and ex == 0:
@@ -391,10 +393,22 @@ class DirtyOracle:
         if before is None:
             return None
         k = c["c"]
-        if k in ("gedit", "gcommit", "gamend", "gmerge", "greset", "gconfig", "refresh", "spill"):
+        if k in ("gedit", "gcommit", "gamend", "gmerge", "greset", "gconfig", "spill"):
             return None
         if "hard" in c.get("flags", []):
             return None
+        target_applied_below_top = False
+        if k == "refresh":
+            # refresh "completes with those contents intact": judged when it succeeds (a conflict halt
+            # leaves markers by design), and not for an UNAPPLIED target, where the changes leave the
+            # work tree with the patch they were put into
+            if ex != 0:
+                return None
+            st = stack_json(real, snap)
+            if c.get("patch") is not None:
+                if st is None or c["patch"] not in st["applied"]:
+                    return None
+                target_applied_below_top = st["applied"][-1] != c["patch"]
         for path, content in before.items():
             full = os.path.join(real.r.path, path)
             try:
@@ -411,6 +425,11 @@ class DirtyOracle:
                                           capture_output=True)
                     if ours.returncode == 0 and ours.stdout == content:
                         continue
+                if k == "refresh" and target_applied_below_top:
+                    # known finding F43: the change went into the named patch, and a patch above it sets
+                    # the region back (or became empty) when pushed onto it again
+                    return ("refresh-p-overridden: `stg refresh -p %s` succeeded but %r no longer has the content the "
+                            "user had written (a patch above the refreshed one overrides it)" % (c["patch"], path))
                 return "uncommitted content of %r was changed by `stg %s` (exit %r)" % (path, k, ex)
         return None
 
